@@ -142,6 +142,12 @@ def score_work(job):
         if job['sys'] == 'ty' and k % 97 == 0:
             # other spellings of the event and gender arguments (blank-padded, lower case), where the Python reference answers them
             ev = job['ev']
+            # marks keyed in with stray blanks
+            for name, val, manual in forms:
+                if isinstance(val, str):
+                    for v2 in (val + ' ', ' ' + val, val + '\t', val + '  '):
+                        if 'e' not in jsdiff.py_eval(athlib.tyrving_score, [job['g'], job['age'], ev, v2]):
+                            args.append([job['g'], job['age'], ev, v2])
             # ages as they may arrive: a float worked out from dates, text
             for age2 in (job['age'] + 0.5, job['age'] + 0.99, float(job['age']), str(job['age']), ' %d ' % job['age']):
                 for name, val, manual in forms[:2]:
@@ -164,6 +170,8 @@ def score_work(job):
                 return 'event-or-gender-spelling'
             if a_[1] != job['age'] or type(a_[1]) is not int:
                 return 'age-form'
+            if isinstance(a_[3], str) and a_[3] != a_[3].strip():
+                return 'mark-with-blanks'
             dist = sc.setup()['ty']._tyrvingTables[a_[0]][a_[2]][1][0] if job.get('kind') == 'race' else None
             hand = isinstance(a_[3], str) and U().is_hand_timing(a_[3])
             return 'hand-timed-%s' % ('40-60-80-300' if dist in (40, 60, 80, 300) else 'other') if hand else ''
